@@ -1,21 +1,27 @@
 """
-stream `filefields` (C05, supplementary, evaluated on the implementation only): FilenameField and UrlField, the two field
-classes whose constraints are about the outside world (the file system, URL syntax) and which Fields.v leaves opaque.
-Exactness against an independent re-statement (os.path / urllib called directly), idempotence, determinism, and the on-disk
-round trip, with the process working in a directory DIFFERENT from the field's start directory and decoy entries of the same
-names in it.
+stream `filefields` (C05): FilenameField and UrlField, the two field classes whose constraints are about the outside world
+(the file system, URL syntax), compared with FileFields.v (`run_filefields`).  The file system, the os.path algebra and
+urlparse are not code of /repo: every case carries the table of the os.path / urllib answers (obtained by calling them
+DIRECTLY, never through cincoconfig, while the case's directory layout exists) for the paths the model may ask about; a
+missing row makes the model answer Unmodelled, which shows up as a disagreement.  The temporary root is written "/R" in
+cases and observations.  The direct oracle (independent of the model) is kept: exactness against a re-statement from the
+layout, idempotence, determinism, the on-disk round trip -- with the process working in a directory DIFFERENT from the
+field's start directory and decoy entries of the same names in it.
 """
 import os
 import shutil
 import tempfile
 
+from common import gal, g_str, g_bool, g_list, g_opt
+
 NAME = "filefields"
-MODEL = False
-IMPORTS = RUN = CASE_TYPE = None
+IMPORTS = "From Cinco Require Import Base Str Fields FileFields."
+RUN = "run_filefields"
+CASE_TYPE = "ffcase"
 
 EXISTS = [None, True, False, "dir", "file"]
 NAMES = ["a.txt", "sub/b.txt", "sub", "missing.txt", "nodir/x", "", "  a.txt  ", "decoy-only.txt", "both.txt", "ABS:a.txt", "ABS:missing",
-         ".", "sub/"]
+         ".", "sub/", "sub/../a.txt", "./a.txt", "../start/a.txt", "../cwd/decoy-only.txt", "a.txt/", "ABS:sub", "ABS:sub/b.txt"]
 URLS = ["http://example.com", "https://example.com/a?b=c#d", "ftp://host/file", "example.com", "/relative/path", "http://", "://x",
         "mailto:user@example.com", "", "  http://example.com  ", "HTTP://EXAMPLE.COM", "http://[::1]:80/", "http://exa mple.com", "file:///etc/hosts"]
 
@@ -42,7 +48,53 @@ def generate(rng, tier):
 
 
 def gcase(c):
-    return ""
+    t = c["_tab"]
+    sopts = "(mk_sopts None None None [] CNone %s)" % ("SWs" if c["strip"] else "SNone")
+    if c["cls"] == "file":
+        mode = {None: "ENone", True: "ETrue", False: "EFalse", "dir": "EDir", "file": "EFile"}[c["exists"]]
+        f = "(FFile false %s %s %s)" % (sopts, mode, g_opt(t["startdir"], g_str))
+    else:
+        f = "(FUrl %s %s)" % (g_bool(c["required"]), sopts)
+    rows = g_list(t["rows"], lambda r: "(%s,(%s,%s,%s,%s,%s,%s))" % (g_str(r[0]), g_bool(r[1]), g_str(r[2]), g_str(r[3]),
+                                                                     g_bool(r[4]), g_bool(r[5]), g_bool(r[6])))
+    joins = g_list(t["joins"], lambda r: "(%s,%s,%s)" % (g_str(r[0]), g_str(r[1]), g_str(r[2])))
+    urls = g_list(t["urls"], lambda r: "(%s,%s)" % (g_str(r[0]), g_opt(r[1], g_str)))
+    return "(%s, %s, %s, %s, %s)" % (f, rows, joins, urls, gal(t["x"]))
+
+
+def _tables(c, root, v, sd):
+    """what os.path / urlparse answer, asked directly, for every path / text the model may ask about"""
+    cz = lambda s: s.replace(root, "/R")   # noqa: E731
+    cands = []
+
+    def add(s):
+        if isinstance(s, str) and (s != "" or c["cls"] == "url") and s not in cands:
+            cands.append(s)
+    if isinstance(v, str):
+        add(v)
+        add(v.strip())
+    rows, joins, urls = [], [], []
+    i = 0
+    while i < len(cands) and i < 40:
+        pth = cands[i]
+        i += 1
+        if c["cls"] == "file":
+            e, a = os.path.expanduser(pth), os.path.abspath(pth)
+            rows.append((cz(pth), os.path.isabs(pth), cz(e), cz(a), os.path.exists(pth), os.path.isdir(pth), os.path.isfile(pth)))
+            if sd and not os.path.isabs(pth):
+                j = os.path.join(sd, pth)
+                joins.append((cz(sd), cz(pth), cz(j)))
+                add(j)
+                add(os.path.expanduser(j))
+                add(os.path.abspath(os.path.expanduser(j)))
+                add(os.path.abspath(os.path.expanduser(j)).strip())
+        else:
+            from urllib.parse import urlparse
+            try:
+                urls.append((pth, urlparse(pth).scheme))
+            except Exception:  # noqa
+                urls.append((pth, None))
+    return {"rows": rows, "joins": joins, "urls": urls, "x": cz(v) if isinstance(v, str) else v, "startdir": cz(sd) if sd else sd}
 
 
 def _layout(root):
@@ -68,6 +120,7 @@ def impl(c):
         if isinstance(v, str) and v.startswith("ABS:"):
             v = os.path.join(root, "start", v[4:])
         out["value"] = v
+        c["_tab"] = _tables(c, root, v, None if c["cls"] != "file" or c["startdir"] is None else os.path.join(root, c["startdir"]))
         if c["cls"] == "file":
             sd = None if c["startdir"] is None else os.path.join(root, c["startdir"])
             mk = lambda: FilenameField(exists=c["exists"], startdir=sd, transform_strip=True if c["strip"] else None)   # noqa: E731
@@ -107,7 +160,18 @@ def impl(c):
         else:
             os.environ["HOME"] = home
         shutil.rmtree(root, ignore_errors=True)
-    return out
+    c["_out"] = out
+    if "_tab" not in c:
+        c["_tab"] = {"rows": [], "joins": [], "urls": [], "x": None, "startdir": None}
+
+    def oc(r):
+        if r is None or r[0] != "ok":
+            return "err"
+        return ("ok", r[1].replace(out["root"], "/R") if isinstance(r[1], str) else r[1])
+    first = out.get("first")
+    if first is not None and first[0] == "ok" and first[1] is not None:
+        return (oc(first), oc(out.get("second")), oc(out.get("roundtrip")))
+    return (oc(first),)
 
 
 def _expect_file(c, obs):
@@ -140,6 +204,7 @@ def _expect_file(c, obs):
 
 
 def oracle(c, obs):
+    obs = c["_out"]
     what = "%s %r" % ("FilenameField(exists=%r, startdir=%r)" % (c.get("exists"), c.get("startdir")) if c["cls"] == "file"
                       else "UrlField(required=%r)" % c.get("required"), c["value"])
     if "setup" in obs:
@@ -183,6 +248,7 @@ def oracle(c, obs):
 
 
 def tags(c, obs):
+    obs = c["_out"]
     return {"cls:" + c["cls"], "exists:%r" % (c.get("exists"),), "startdir:%r" % (c.get("startdir") is not None,),
             "result:" + str(obs.get("first", ("?",))[0])}
 
